@@ -48,7 +48,9 @@ def run(fx, rep):
               'This::from_context does not apply the same T::from_value to receiver and first argument (%s)' % srcs)
     # both results wrapped in This
     aggs = [s for _, _, s in b.stmts() if s['k'] == 'Assign' and s['rv']['k'] == 'Aggregate' and s['rv'].get('adt') == MAGIC + 'This']
-    okk = len(aggs) == 2 and all(all(x[0] == 'call' and x[1] == MAGIC + 'FromValue::from_value' for x in pv.of_operand(s['rv']['ops'][0])) for s in aggs)
+    # one `This(..)` per branch, or a single one after the branches joined: every value that can be wrapped is a from_value result, and both are
+    wrapped = [x for s in aggs for x in pv.of_operand(s['rv']['ops'][0])]
+    okk = 1 <= len(aggs) <= 2 and bool(wrapped) and all(x[0] == 'call' and x[1] == MAGIC + 'FromValue::from_value' for x in wrapped) and len({x[3] for x in wrapped}) == 2
     rep.check(okk, 'R1', 'This/wraps-converted-value', b.loc(), 'This(T::from_value(..)) in both branches', 'This does not wrap the converted value in both branches')
     # signature table of the registrations
     dflt = [x for x in fx.bodies.values() if x.raw.get('impl_trait') == 'std::default::Default' and x.raw.get('impl_self', '').startswith(CTX) and x.raw['kind'] == 'AssocFn']
@@ -194,17 +196,25 @@ def run(fx, rep):
     ev, epv = m.b, m.pv
     rep.analysed(ev)
     news = [(bi, t) for bi, t in ev.calls() if F.norm_callee(t) == 'cel_interpreter::functions::FunctionContext::new']
-    rep.check(len(news) == 2, 'R5', 'call-site/two-constructions', ev.loc(), 'with and without receiver', 'expected 2 FunctionContext constructions, found %d' % len(news))
+    rep.check(len(news) >= 1, 'R5', 'call-site/constructions-found', ev.loc(), '%d FunctionContext construction(s)' % len(news), 'no FunctionContext construction found in the evaluator')
+    kinds_seen = set()
     for bi, t in news:
         a = [epv.of_operand(x) for x in t['args']]
         name_ok = all(short_path(ast_path(x)) == 'Call.func_name' for x in a[0])
-        this_none = all(x[0] == 'agg' and x[1].endswith('Option::None') for x in a[1])
-        this_recv = all(x[0] == 'agg' and x[1].endswith('Option::Some') and x[2][0][0] == 'call' and x[2][0][1] in RESOLVE_FNS and short_path(ast_path(x[2][0][2][0])) == 'Call.target' for x in a[1])
+        def is_none(x):
+            return x[0] == 'agg' and x[1].endswith('Option::None')
+        def is_recv(x):
+            return x[0] == 'agg' and x[1].endswith('Option::Some') and x[2][0][0] == 'call' and x[2][0][1] in RESOLVE_FNS and short_path(ast_path(x[2][0][2][0])) == 'Call.target'
+        this_none = all(is_none(x) for x in a[1])
+        this_recv = all(is_recv(x) for x in a[1])
+        this_both = bool(a[1]) and all(is_none(x) or is_recv(x) for x in a[1])      # one construction shared by both call forms
         ctx_ok = all(x == ('param', 2) for x in a[2])
         args_ok = all(short_path(ast_path(x)) == 'Call.args' for x in a[3])
-        kind = 'method' if this_recv else ('function' if this_none else '?')
+        kind = 'method' if this_recv else ('function' if this_none else ('method+function' if this_both else '?'))
+        kinds_seen |= set(kind.split('+'))
         rep.check(name_ok and ctx_ok and args_ok and kind != '?', 'R5', 'call-site/%s' % kind, F.loc_of(t['span']), 'FunctionContext::new(func_name, %s, ctx, call.args.clone())' % ('Some(resolve(target))' if this_recv else 'None'),
                   'call site builds the function context from (%s; %s; %s; %s)' % tuple(','.join(map(F.term_str, x))[:80] for x in a))
+    rep.check({'method', 'function'} <= kinds_seen, 'R5', 'call-site/both-call-forms', ev.loc(), 'receiver form and function form are both dispatched', 'call forms dispatched: %s' % sorted(kinds_seen))
     # the dispatch receives that context and the looked-up function
     nb = fx.body('cel_interpreter::functions::FunctionContext::new') if 'cel_interpreter::functions::FunctionContext::new' in fx.bodies else \
         [x for x in fx.bodies.values() if F.norm_path(x.path) == 'cel_interpreter::functions::FunctionContext::new'][0]
